@@ -204,12 +204,12 @@ _NOTE = ("Trusted: TLC, the Go toolchain, cosmos-sdk baseapp/IAVL/x-bank, the ha
          "Bounded: small constants for the exhaustive runs; sampled behaviours (seeded) for the code; in the integer-unit model amounts beyond 2^30 normalised units "
          "are dropped, not judged (C01, C02, C04, C05 judge very large amounts in the digit-sequence model Big.tla instead).")
 TEXT = {
-    "C01": dict(text=_MC + _BIG + "Conservation is a state invariant over all ledgers, so it is evaluated after every message and block of every executed history, which is the quantifier the property asks for.", technique="TLA+ spec + TLC model checking + TLC trace validation (state invariant over projected ORM/bank state)"),
-    "C02": dict(text=_MC + _BIG + "The issued amount is a ghost variable of the specification recomputed by TLC from the logged events, never by the harness.", technique="TLA+ ghost ledger + TLC model checking + trace validation"),
+    "C01": dict(text=_MC + _BIG + "Conservation is a state invariant over all ledgers, so it is evaluated after every message and block of every executed history, which is the quantifier the property asks for.", technique="TLA+ spec + TLC model checking + TLC trace validation (state invariant over projected ORM/bank state); digit-sequence ledger Big.tla for very large amounts; Apalache inductive invariant over all integer amounts (IndLedger.tla, design level)"),
+    "C02": dict(text=_MC + _BIG + "The issued amount is a ghost variable of the specification recomputed by TLC from the logged events, never by the harness.", technique="TLA+ ghost ledger + TLC model checking + trace validation; digit-sequence ledger Big.tla for very large amounts; Apalache inductive invariant over all integer amounts (IndLedger.tla, design level)"),
     "C03": dict(text=_MC + "Ownership safety is a step property over the signer set msg.GetSigners() logged with each real message, with the two exceptions the property states.", technique="TLA+ action property over logged signers + TLC model checking + trace validation"),
-    "C04": dict(text=_MC + _BIG + "Monotonicity is an action property checked on every real step, failed messages included.", technique="TLA+ action property + TLC model checking + trace validation"),
-    "C05": dict(text=_MC + _BIG + "The real x/bank keeper mints and burns; basket tokens are normalised with the credit unit so that backing is an equation TLC can evaluate.", technique="TLA+ spec of basket + bank + TLC model checking + trace validation"),
-    "C06": dict(text=_MC + "Escrow = open orders is an invariant; 'allowed when written' is an action property against the pre-state allow list.", technique="TLA+ invariant + action property + TLC model checking + trace validation"),
+    "C04": dict(text=_MC + _BIG + "Monotonicity is an action property checked on every real step, failed messages included.", technique="TLA+ action property + TLC model checking + trace validation; digit-sequence ledger Big.tla for very large amounts"),
+    "C05": dict(text=_MC + _BIG + "The real x/bank keeper mints and burns; basket tokens are normalised with the credit unit so that backing is an equation TLC can evaluate.", technique="TLA+ spec of basket + bank + TLC model checking + trace validation; digit-sequence ledger Big.tla for very large amounts; Apalache inductive invariant over all integer amounts (IndLedger.tla, design level)"),
+    "C06": dict(text=_MC + "Escrow = open orders is an invariant; 'allowed when written' is an action property against the pre-state allow list.", technique="TLA+ invariant + action property + TLC model checking + trace validation; Apalache inductive invariant over all integer amounts (IndLedger.tla, design level)"),
     "C07": dict(text=_MC + "Settlement is checked with exact rational arithmetic over naturals and the property's own one-unit tolerances, not equality with the specification.", technique="TLA+ action properties with cross-multiplied rational bounds + TLC model checking + trace validation"),
     "C08": dict(text=_MC + "Every gated message is tried by every account in every role assignment of the bounded configurations; footprints are frame conditions on the state record.", technique="TLA+ role predicates and frame conditions + TLC model checking + trace validation (ecocredit and data)"),
     "C09": dict(text=_MC + "The modules' own genesis validators are modelled in TLA+ (Props!GenesisValid: date order, reference resolution, the per-batch supply equation of ValidateGenesis, its emptiness rules; Data!DataGenesisValid) and TLC checks that every reachable state of the bounded models passes them (C09_ValidGenesis; it finds the recorded start=end finding by itself when known_findings.txt is empty). The model is bound to the code at every export observation: the harness exports, validates, imports into an empty chain, re-exports and continues the behaviour on the imported chain after ~30% of the steps and at the end, and TLC checks that the real validator's verdict equals the model's (T_C09_ValidatorModel), the re-export is identical, invariants hold and the abstract state is unchanged. The import/re-export identity itself is observed, not model-checked.", technique="TLA+ model of the genesis validators checked by TLC on all reachable states + TLA+-generated behaviours with ExportImport observation steps validated by TLC"),
